@@ -27,11 +27,18 @@ import (
 
 const h2fBase = " {F : Type} [Inhabited F] (zeroF : F) (setBigIntF : Int → F)"
 
+// h2fGeneric: the current target is the GENERIC copy (Gen/Imp/H2F_generic.lean): the package constants Bits / modulus are parameters
+var h2fGeneric bool
+
 func h2fParams(fn string) (string, string) {
-	if fn == "Hash" {
-		return h2fBase + " (ExpandMsgXmd : Bytes → Bytes → Int → Bytes × Err)", " zeroF setBigIntF ExpandMsgXmd"
+	pp, aa := h2fBase, " zeroF setBigIntF"
+	if h2fGeneric {
+		pp, aa = " (Bits : Int) (modulus : Int)"+pp, " Bits modulus"+aa
 	}
-	return h2fBase, " zeroF setBigIntF"
+	if fn == "Hash" {
+		return pp + " (ExpandMsgXmd : Bytes → Bytes → Int → Bytes × Err)", aa + " ExpandMsgXmd"
+	}
+	return pp, aa
 }
 
 func (p *impPkg) loadH2F(f *ast.File) {
@@ -150,6 +157,9 @@ func (p *impPkg) loadH2F(f *ast.File) {
 }
 
 func (p *impPkg) useConst(n string) {
+	if n != "Bits" {
+		die("imp: %s: package constant %s read by a translated function (mode h2f knows Bits only)", p.tg.dir, n)
+	}
 	for _, c := range p.constsUsed {
 		if c == n {
 			return
@@ -160,7 +170,13 @@ func (p *impPkg) useConst(n string) {
 
 func (p *impPkg) h2fHeader() string {
 	var b strings.Builder
-	for _, c := range p.constsUsed {
+	if h2fGeneric {
+		return "/-! GENERIC copy: the text of " + p.tg.dir + " with the package constants `Bits` and `_modulus` as parameters; Gen/Imp/H2FAll.lean checks\nthat the translation of every field package is this text at its own constants. -/\n\n"
+	}
+	if p.consts["Bits"] == "" {
+		die("imp: %s: constant Bits not found", p.tg.dir)
+	}
+	for _, c := range []string{"Bits"} {
 		fmt.Fprintf(&b, "/-- package constant `%s = %s` -/\ndef %s : Int := %s\n", c, p.consts[c], lname(c), p.consts[c])
 	}
 	fmt.Fprintf(&b, "/-- `var _modulus big.Int`, set once by `_modulus.SetString(\"…\", 16)` in init() and only read afterwards (checked) -/\ndef modulus : Int := %s\n\n", p.modulus)
@@ -270,19 +286,29 @@ func (f *impFn) checkBigScratch(get *ast.AssignStmt, x string) {
 
 func writeH2FAll(names []string) {
 	var b strings.Builder
-	b.WriteString("/- GENERATED by tools/goslp (imp_h2f.go) on every run. DO NOT EDIT.\n   SetBigInt / Hash of the 23 field packages, by package name, with the package constants they read. -/\n")
+	b.WriteString("/- GENERATED by tools/goslp (imp_h2f.go) on every run. DO NOT EDIT.\n   SetBigInt / Hash of the 23 field packages: every translation is the GENERIC text (H2F_generic, the text of ecc/bn254/fr with Bits and\n   the modulus as parameters) at the package's own constants. -/\nimport GnarkVerif.Gen.Imp.H2F_generic\n")
 	for _, n := range names {
 		b.WriteString("import GnarkVerif.Gen.Imp.H2F_" + n + "\n")
 	}
 	b.WriteString("\nnamespace GV.Gen.Imp.H2FAll\nopen GV.GoImp\n\n")
-	b.WriteString("/-- (package, Bits, modulus) as read from the Go text -/\ndef allConsts : List (String × Int × Int) := [\n")
+	for _, n := range names {
+		fmt.Fprintf(&b, "theorem %s_SetBigInt_same : @H2F_%s.SetBigInt = @H2F_generic.SetBigInt H2F_%s.Bits H2F_%s.modulus := rfl\n", n, n, n, n)
+		fmt.Fprintf(&b, "theorem %s_loop_same : @H2F_%s.Hash.loop1 = @H2F_generic.Hash.loop1 H2F_%s.Bits H2F_%s.modulus := by\n  funext F inst zeroF setBigIntF X count L prb fuel vv res i\n  induction fuel generalizing vv res i with\n  | zero => rfl\n  | succ n ih => simp only [H2F_%s.Hash.loop1, H2F_generic.Hash.loop1, ih, %s_SetBigInt_same]\n", n, n, n, n, n, n)
+		fmt.Fprintf(&b, "theorem %s_Hash_same : @H2F_%s.Hash = @H2F_generic.Hash H2F_%s.Bits H2F_%s.modulus := by\n  funext F inst zeroF setBigIntF X msg dst count\n  simp only [H2F_%s.Hash, H2F_generic.Hash, %s_loop_same]\n\n", n, n, n, n, n, n)
+	}
+	b.WriteString("/-- one field package: name, the constants its functions read, its translated functions -/\nstructure Pkg where\n  name : String\n  bits : Int\n  modulus : Int\n  setBigInt : {F : Type} → [Inhabited F] → F → (Int → F) → F → Int → F\n  hash : {F : Type} → [Inhabited F] → F → (Int → F) → (Bytes → Bytes → Int → Bytes × Err) → Bytes → Bytes → Int → List F × Err\n\n")
+	b.WriteString("def allPkgs : List Pkg := [\n")
 	for i, n := range names {
 		sep := ","
 		if i == len(names)-1 {
 			sep = ""
 		}
-		fmt.Fprintf(&b, "  (%q, H2F_%s.Bits, H2F_%s.modulus)%s\n", n, n, n, sep)
+		fmt.Fprintf(&b, "  ⟨%q, H2F_%s.Bits, H2F_%s.modulus, @H2F_%s.SetBigInt, @H2F_%s.Hash⟩%s\n", n, n, n, n, n, sep)
 	}
-	b.WriteString("]\n\nend GV.Gen.Imp.H2FAll\n")
+	b.WriteString("]\n\n/-- every package's translation is the generic text at the package's constants -/\ntheorem allPkgs_same : ∀ P ∈ allPkgs, @P.setBigInt = @H2F_generic.SetBigInt P.bits P.modulus ∧ @P.hash = @H2F_generic.Hash P.bits P.modulus := by\n  intro P hP\n  simp only [allPkgs, List.mem_cons, List.not_mem_nil, or_false] at hP\n  rcases hP with " + strings.TrimSuffix(strings.Repeat("rfl | ", len(names)), " | ") + "\n")
+	for _, n := range names {
+		fmt.Fprintf(&b, "  · exact ⟨%s_SetBigInt_same, %s_Hash_same⟩\n", n, n)
+	}
+	b.WriteString("\nend GV.Gen.Imp.H2FAll\n")
 	writeFile("Imp/H2FAll.lean", b.String())
 }
